@@ -21,6 +21,7 @@ type C16Case struct {
 	Lines   []int  `json:"lines"` // byte length of each logged output line
 	Seed    uint64 `json:"seed"`
 	OnlyK   int    `json:"only_k,omitempty"` // replay: only this crash point (0: all)
+	PreDir  bool   `json:"predir,omitempty"` // the test's fail file directory exists already (empty) when the save starts
 }
 
 func (cs *C16Case) prog() *Prog {
@@ -59,6 +60,7 @@ func (c16) Gen(dt *drv.T, c *Ctx) any {
 	for i := 0; i < nl; i++ {
 		cs.Lines = append(cs.Lines, pick(dt, "linelen", 0, 10, 5000, 4096, 65536, 70000, 200000))
 	}
+	cs.PreDir = drv.Bool().Draw(dt, "predir")
 	return cs
 }
 
@@ -102,6 +104,7 @@ func (c16) Run(c *Ctx, csAny any) Outcome {
 		out.Viol = violf("C16:no-reference-file", "name %q: an uninterrupted save left %d fail files (%d fs calls: %v)", name, len(files), r0.Count, r0.Calls)
 		return out
 	}
+	refDir := filepath.Dir(files[0]) // relative to the working directory; observed, not computed
 	refBytes, _ := os.ReadFile(files[0])
 	ref := normalizeFailFile(refBytes)
 	_, _, refWords, perr := ParseFailFile(files[0])
@@ -128,6 +131,9 @@ func (c16) Run(c *Ctx, csAny any) Outcome {
 			continue
 		}
 		dk := EnterCaseDir()
+		if cs.PreDir {
+			_ = os.MkdirAll(refDir, 0o775)
+		}
 		rk := traceChild(k, argv, env, dk)
 		if rk.Err != nil {
 			LeaveCaseDir(dk)
@@ -181,6 +187,9 @@ func (c16) Run(c *Ctx, csAny any) Outcome {
 	}
 	out.NonTrivial = between > 0
 	out.Classes = append(out.Classes, fmt.Sprintf("crash-points-%d", K))
+	if cs.PreDir {
+		out.Classes = append(out.Classes, "directory-existed-before")
+	}
 	return out
 }
 
